@@ -2,31 +2,31 @@ package harness
 
 // Config holds the per-run knobs (all drawn from the run seed by the plan generator).
 type Config struct {
-	Nodes      int     `json:"nodes"`
-	Wallets    int     `json:"wallets"`
-	SupplyCur  uint64  `json:"supply_cur"`
-	SupplySup  uint64  `json:"supply_sup"`
-	Topology   [][2]int `json:"topology,omitempty"` // undirected links; empty = complete graph via discovery
-	PreemptP   float64 `json:"preempt_p"`          // 0 = event mode
-	Spread     int     `json:"spread"`
-	LatMinMS   int     `json:"lat_min_ms"`
-	LatJitMS   int     `json:"lat_jit_ms"`
-	DropP      float64 `json:"drop_p"`
-	DupP       float64 `json:"dup_p"`
-	SpikeP     float64 `json:"spike_p"`
-	CtxCancelOnReturn bool `json:"ctx_cancel_on_return"`
-	TruncateDiff uint64 `json:"truncate_diff"` // 0 = source value
-	TruncateAt   uint64 `json:"truncate_at"`   // accountant.Config.Truncate
-	MaxArraySize uint64 `json:"max_array_size"`
-	MaxRepeats   uint64 `json:"max_repeats"`
-	DataSize   int     `json:"data_size"`
-	Trusted    []int   `json:"trusted,omitempty"` // node indexes whose address every node trusts
-	KeepLogs   bool    `json:"keep_logs,omitempty"`
-	StreamBuf  int     `json:"stream_buf"`
-	SettleMS   int     `json:"settle_ms"`
-	Direct     bool    `json:"direct"` // clients call the ledger API directly instead of the notary API
-	StreamFaultKind string `json:"stream_fault,omitempty"`
-	K          int     `json:"k,omitempty"` // scenario class selector
-	OpSkip     []int   `json:"op_skip,omitempty"`  // scenario-generated operations to leave out (set by the minimiser)
-	OpLimit    int     `json:"op_limit,omitempty"` // stop after this many scenario-generated operations (0 = all)
+	Nodes             int      `json:"nodes"`
+	Wallets           int      `json:"wallets"`
+	SupplyCur         uint64   `json:"supply_cur"`
+	SupplySup         uint64   `json:"supply_sup"`
+	Topology          [][2]int `json:"topology,omitempty"` // undirected links; empty = complete graph via discovery
+	PreemptP          float64  `json:"preempt_p"`          // 0 = event mode
+	Spread            int      `json:"spread"`
+	LatMinMS          int      `json:"lat_min_ms"`
+	LatJitMS          int      `json:"lat_jit_ms"`
+	DropP             float64  `json:"drop_p"`
+	DupP              float64  `json:"dup_p"`
+	SpikeP            float64  `json:"spike_p"`
+	CtxCancelOnReturn bool     `json:"ctx_cancel_on_return"`
+	TruncateDiff      uint64   `json:"truncate_diff"` // 0 = source value
+	TruncateAt        uint64   `json:"truncate_at"`   // accountant.Config.Truncate
+	MaxArraySize      uint64   `json:"max_array_size"`
+	MaxRepeats        uint64   `json:"max_repeats"`
+	DataSize          int      `json:"data_size"`
+	Trusted           []int    `json:"trusted,omitempty"` // node indexes whose address every node trusts
+	KeepLogs          bool     `json:"keep_logs,omitempty"`
+	StreamBuf         int      `json:"stream_buf"`
+	SettleMS          int      `json:"settle_ms"`
+	Direct            bool     `json:"direct"` // clients call the ledger API directly instead of the notary API
+	StreamFaultKind   string   `json:"stream_fault,omitempty"`
+	K                 int      `json:"k,omitempty"`        // scenario class selector
+	OpSkip            []int    `json:"op_skip,omitempty"`  // scenario-generated operations to leave out (set by the minimiser)
+	OpLimit           int      `json:"op_limit,omitempty"` // stop after this many scenario-generated operations (0 = all)
 }
